@@ -636,6 +636,14 @@ def analyse_eq(ctx, fi: FuncInfo) -> EqShape:
             q = ctx.repo.resolve(fi.module.name, ast.unparse(n))
             if q and ci is not None and (q == ci.qualname or q in ci.mro):
                 ok_cls = True
+        dyn_self = ast.unparse(cls_node).replace(" ", "") in {f"type({x})" for x in self_names} | {f"{x}.__class__" for x in self_names}
+        if not ok_cls and not dyn_self and not any(ctx.repo.resolve(fi.module.name, ast.unparse(n)) for n in names):
+            # the class tested is not named but computed (`self._kind`, `type(self).__mro__[1]`): which class that
+            # is at run time is not decided here
+            raise AnalysisError(
+                f"{fi.qualname}: the type guard tests `{ast.unparse(cls_node)}`, a class computed at run time; whether it is "
+                f"{ci.name if ci is not None else 'the enclosing class'} for every receiver is not decided"
+            )
         if not ok_cls:
             sh.guard_problem = (
                 st,
